@@ -79,10 +79,16 @@ pub fn distinct_shapes(r: &mut Rng, t: i32, n: usize, equal: bool) -> Vec<AShape
 }
 
 pub fn make_file(c: &Conc, r: &mut Rng, t: i32, n: usize, equal: bool) -> TestFile {
+    make_file_in(c, r, t, n, equal, false)
+}
+
+/// `reused`: the three destinations already hold longer content (a reused buffer cannot be truncated by
+/// a Write + Seek writer; what lies beyond the declared lengths must simply not matter to a reader)
+pub fn make_file_in(c: &Conc, r: &mut Rng, t: i32, n: usize, equal: bool, reused: bool) -> TestFile {
     let input = distinct_shapes(r, t, n, equal);
     let built: Vec<Shape> = input.iter().map(|a| build(c, a)).collect();
     let shapes: Vec<AShape> = built.iter().map(|s| abstract_shape(c, s)).collect();
-    let (shp, shx, dbf) = (LogDest::new(), LogDest::new(), LogDest::new());
+    let (shp, shx, dbf) = if reused { (LogDest::prefilled(6000), LogDest::prefilled(3000), LogDest::new()) } else { (LogDest::new(), LogDest::new(), LogDest::new()) };
     {
         let sw = ShapeWriter::with_shx(shp.clone(), shx.clone());
         let tw = table_builder().build_with_dest(dbf.clone());
@@ -488,7 +494,8 @@ pub fn run(a: &Args) {
                 continue;
             }
             // one file per chunk (each chunk has its own concretisation)
-            let files: Vec<TestFile> = (0..chunks).map(|i| make_file(&concs[i], &mut r, t, nrec, equal)).collect();
+            // (every other file is written into reused, longer buffers)
+            let files: Vec<TestFile> = (0..chunks).map(|i| make_file_in(&concs[i], &mut r, t, nrec, equal, i % 2 == 1)).collect();
             let mut hists: Vec<(Option<bool>, String)> = vec![];
             // 1. the histories TLC explored
             if nrec == 3 {
